@@ -42,7 +42,8 @@ pub fn short_res(r: &interp::Res) -> String {
 }
 
 pub fn run_case(prop: &str, case: &Case) -> CaseOut {
-    let prof = props::profile(prop, "quick");
+    let profile_of = std::env::var("VERIF_CASE_PROFILE").unwrap_or_else(|_| prop.to_string());
+    let prof = props::profile(&profile_of, &driver::case_tier());
     let prog = case.decode(&prof);
     let out = interp::run_any(&prog);
     oracle::EXPLAIN.with(|e| e.set(prop == "C03"));
